@@ -251,6 +251,36 @@ def wraps_event(tid, ps, inner_future, wrapper_future):
             'case': {'op': 'wraps', 'ins': [ps], 'inner_future': inner_future, 'wrapper_future': wrapper_future}}
 
 
+def partial_preset_event(tid, ps, inner_future, outer_future, rnd):
+    """a partial object holding a keyword that names an annotated parameter which is NOT its function's own: the function forwards **kwargs
+    to a callee defined in other globals; the keyword-only parameter shown for it carries the callee's annotation, denoting what it denotes there"""
+    import functools
+    import sigtools
+    cands = [p for p in ps if p['k'] in ('pok', 'kwo') and p['an']]
+    if not cands:
+        return None
+    target = rnd.choice(cands)
+    gi = {'A%d' % a: absig.AN[10 + a] for a in (1, 2)}
+    inner = absig.make_func(ps, name='f1', extra_globals=gi, future=inner_future)
+    go = {'A%d' % a: absig.AN[20 + a] for a in (1, 2)}
+    go['inner_'] = inner
+    outer = absig.make_func([{'n': 'args', 'k': 'var', 'd': False, 'dv': 0, 'an': 0}, {'n': 'kwargs', 'k': 'vkw', 'd': False, 'dv': 0, 'an': 0}], name='f2',
+                            extra_globals=go, future=outer_future, body='return inner_(*args, **kwargs)', register_source=True)
+    p = functools.partial(outer, **{target['n']: 5})
+    want = [{'n': target['n'], 'k': 'kwo', 'd': True, 'dv': 0, 'an': 10 + target['an']}]
+    try:
+        sg = sigtools.signature(p)
+        got = [dict(q, dv=0) for q in project_sv(sg) if q['n'] == target['n']]
+        tag = 'sig'
+    except Exception as e:  # noqa
+        got, tag = [], 'other'
+    if tag == 'sig' and not got:
+        return None           # discovery fell back (allowed): nothing is shown for the keyword
+    return {'tid': tid, 'op': 'law', 'law': 'C11_PartialPresetAnnotationNotTheCallees', 'cmp': 'ps', 'pre': 'none', 'side': True, 'ins': [],
+            'results': [{'tag': 'sig', 'ps': want}, {'tag': tag, 'ps': got}],
+            'case': {'op': 'partial-preset', 'ins': [ps], 'inner_future': inner_future, 'outer_future': outer_future, 'name': target['n']}}
+
+
 def gen(UM, seed, n):
     def g(shard, nshards):
         rnd = random.Random(seed)
@@ -277,6 +307,10 @@ def gen(UM, seed, n):
                     yield twin_event('twin/%d' % k, rop, pss, fl, per_function)
                 if k % 5 == 0:
                     yield annotate_event('annot/%d' % k, pss[0], future, random.Random(k))
+                if k % 7 == 3:
+                    e = partial_preset_event('preset/%d' % k, pss[0], bool(k % 2), bool((k // 2) % 2), random.Random(k))
+                    if e is not None:
+                        yield e
                 if k % 7 == 2:
                     yield wraps_event('wraps/%d' % k, pss[0], bool(k % 2), bool((k // 2) % 2))
                 if k % 5 == 1 and alggen.has_star(pss[0]) and any(p['k'] not in ('var', 'vkw') for p in pss[0]):
@@ -321,6 +355,10 @@ def replay(check, case, scratch):
             return
         if c.get('twin'):
             yield twin_event(case['tid'], c['op'], c['ins'], {k: v for k, v in c['fl'].items() if k in ('uva', 'uvk', 'n', 'names')}, c['per_function'])
+        elif c['op'] == 'partial-preset':
+            e = partial_preset_event(case['tid'], c['ins'][0], c['inner_future'], c['outer_future'], random.Random(int(case['tid'].split('/')[1])))
+            if e is not None:
+                yield e
         elif c['op'] == 'wraps':
             yield wraps_event(case['tid'], c['ins'][0], c['inner_future'], c['wrapper_future'])
         elif c['op'] == 'annotate-forwarding':
